@@ -13,6 +13,7 @@ package daemon
 //@   modifies everything
 //@   attr blocking-ops select#1
 //@   attr select#1 blocking only recv(finished) recv(interrupt)
+//@   ghost before call Notify assert only.sigint: len(arg1) == 1 && arg1[0] == os.Interrupt
 //@   ghost before call Start assert order: sigNotified
 //@   ghost before call Start assert env: len(cmd.Env) == envLen() + 2 && (forall i int {cmd.Env[i]} :: 0 <= i && i < envLen() ==> cmd.Env[i] == environ(i))
 //@   ensures handshake: cmdStarted ==> recvSeq == old(recvSeq) + 1
